@@ -43,3 +43,4 @@ CFG = dict(
 CFG["rule"] += ' C07X: the same with, in addition, a query key that cannot be applied (through a repeated / map field): refusing is fine, a handler that is reached sees the captures. C07W also with an empty text / binary frame sent before the first message.'
 CFG["rule"] += " C07H: a client-streaming upload whose rule binds a field inside the HttpBody body by a path variable (/c07h/{file.content_type=*/*}/{filename}, body file), Content-Type header absent / equal / different, first message read with AsHTTPBodyReader or with RecvMsg: the handler sees the captured values. C07 rules R17 / R18: variables below a message field that is a member of a oneof, with a sibling member set through the query."
 CFG["rule"] += ' The mux under test registers one more service after the rules are bound (the routes are served from a copied routing state). C07I: GET /c07i/{user_id} with 0..9 query values, request A held at its stats Begin event while request B (same query string, another capture) is served: each handler must see its own capture and the message it sees when served alone.'
+CFG["rule"] += ' Body mode f (rules with a body): the competing values for the path-bound fields as an application/x-www-form-urlencoded body (full field paths and, for a body field, paths relative to it), kind C07X: the request may be refused, but a handler that is reached sees the captures.'
